@@ -89,6 +89,14 @@ def run(tier, seed, pid=PID, flavour='plain', n=None, maxpop=2000):
                 c = fam(nf, ds, rt); c['maxpop'] = 200
                 if 'COUNT' in rt: c['count'] = int(rt.split('COUNT=')[1])
                 cases.append(c); nf += 1
+    # every calendar scale with an UNTIL long before DTSTART (for the table calendars: before everything they cover): nothing comes out
+    for sc in rrgen.HIJRI:
+        for fr in ('YEARLY', 'MONTHLY'):
+            ut = rnd.choice([(1900, 1, 1, 0, 0, 0), (1930, 6, 1, 12, 0, 0), (1936, 12, 31, 23, 59, 59), (1901, 1, 1)])
+            utxt = '%04d%02d%02d' % ut[:3] + ('T%02d%02d%02dZ' % ut[3:] if len(ut) > 3 else '')
+            ds = (rnd.choice([1950, 2000, 2020, 2030]), rnd.randint(1, 12), rnd.randint(1, 28), 10, 0, 0)
+            c = fam(nf, ds, 'FREQ=%s;SCALE=%s;UNTIL=%s' % (fr, sc, utxt)); c['until'] = rrgen.inst(ut); c['maxpop'] = 70
+            cases.append(c); nf += 1
     nsl = vlib.NCPU; per = -(-len(cases) // nsl)
     env_asan = flavour == 'asan'
     if env_asan:
